@@ -11,7 +11,7 @@ ID = "C53"
 TECHNIQUE = "hypothesis-generated Fermi sentences vs Fock-space ladder matrices conjugated by the textbook parity/BK basis encodings"
 RULE = (
     "Fermi sentences A, B (0-3 terms, words of 0-4 ladder operators on n <= 6 modes, repeated orbitals allowed, exact "
-    "quarter-integer complex coefficients; words built from dict / from_string (+,-,^ styles) / FermiC*FermiA "
+    "quarter-integer complex coefficients; words built from dict (sorted or reverse insertion order) / from_string (+,-,^ styles) / FermiC*FermiA "
     "products) x scalar k x ps in {True, False} x wire_map (None or a bijection to int/str labels) x tol in {None, "
     "1e-12, 1e-8}. Oracle (pv.ref.fermi: a_j from the Fock-space definition with the (-1)^{n_0+..+n_{j-1}} sign; "
     "parity and Bravyi-Kitaev as GF(2)-linear re-encodings of the occupation basis): for every mapping M, "
@@ -52,7 +52,7 @@ def _word(draw, n):
 
 @st.composite
 def _sentence(draw, n, max_terms, min_terms=0):
-    return [{"c": draw(_coef), "f": draw(_word(n)), "style": draw(st.sampled_from(["dict", "string", "string^", "ops"]))}
+    return [{"c": draw(_coef), "f": draw(_word(n)), "style": draw(st.sampled_from(["dict", "dict-rev", "string", "string^", "ops"]))}
             for _ in range(draw(st.sampled_from([0] + list(range(1, max_terms + 1)) * 2)))]
 
 
@@ -102,7 +102,8 @@ def _fw(t):
             x = FermiC(o) if s == "+" else FermiA(o)
             out = x if out is None else out * x
         return out
-    return FermiWord({(i, o): s for i, (o, s) in enumerate(f)})
+    items = [((i, o), s) for i, (o, s) in enumerate(f)]
+    return FermiWord(dict(reversed(items)) if t["style"] == "dict-rev" else dict(items))
 
 
 def _fs(terms):
